@@ -280,6 +280,8 @@ func init() {
 						return isSt && desc(st.Addr) == "arg#0"
 					}})
 			}},
+		Rule{ID: "C08.h", Explain: "ModPow reports a missing inverse as an error: its callers on the verification paths test only the error, so a nil result without an error (big.Int.Exp on a non-invertible base with a negative exponent) is dereferenced (the obligations of C19.b, same rule).",
+			Run: func(P *Program, R *Report) { sharedRule(P, R, "C19", "C19.b", "C08.h", nil) }},
 	)
 }
 
